@@ -21,9 +21,9 @@ func init() {
 		Explanation: "Decided: R19-closed (typestate) — in every function that handles an *lFile, each instruction that touches the underlying descriptor, reader, writer or process (a call on a value loaded from fp/reader/writer/pp/stdout, a store to one of those fields, AbandonReadBuffer, or a call of a helper that does so unguarded) is dominated by errorIfFileIsClosed on that same file (or by a raising test of .closed); exempt with reasons: constructors, the close transition itself, pure observers (Type, Name, nil-ness tests); " +
 			"R19-reconcile — every path through fileWriteAux reaches AbandonReadBuffer before returning, fileSeek abandons the read buffer before fp.Seek, fileCloseAux flushes a buffered writer before closing, AbandonReadBuffer seeks back by exactly the buffered amount relative to the current position and replaces the reader; " +
 			"R19-eofdata — the buffered read helpers report end-of-file only when they collected no bytes; R19-modes — ioOpenFile's mode switch equals the ISO C fopen table (flags per mode from the os package's constants for the analysed GOOS; 'r' not writable, 'w' not readable). " +
-			"NOT decided: the byte-sequence model itself (what is read after which writes).",
+			"R19-buffers — flush gives the read-ahead back (so that a write after read+flush lands at the cursor), seek and setvbuf write buffered output out before they move the file or replace the buffer, lines are read by one helper that ends a line at the newline only and joins pieces longer than the buffer (bufio's ReadLine, which also strips a carriage return and splits long lines, is not called), io.output truncates like fopen(name, w), and a byte count handed to the reader is not negative. NOT decided: the byte-sequence model itself (what is read after which writes).",
 		Trusted: []string{"ISO C fopen mode table (C11 7.21.5.3) written out in the checker"},
-		Rules:   []func(*Ctx){ruleClosed, ruleReconcile, ruleEofData, ruleModes},
+		Rules:   []func(*Ctx){ruleClosed, ruleReconcile, ruleEofData, ruleModes, ruleIoBuffers},
 	})
 }
 
@@ -573,4 +573,115 @@ func ruleModes(c *Ctx) {
 		}
 	}
 	// defaults before the switch: writable/readable true
+}
+
+
+// ruleIoBuffers: F63–F69.
+func ruleIoBuffers(c *Ctx) {
+	const R = "R19-buffers"
+	c.floor(R, 6)
+	p := c.P
+	abandon := p.Fn("lua", "(*lFile).AbandonReadBuffer")
+	writerF := p.Field("lua", "lFile", "writer")
+	isFlush := func(in ssa.Instruction) bool {
+		pk, n, ok := stdCall(in)
+		return ok && pk == "bufio" && n == "Writer.Flush"
+	}
+	// flush: every normal return passes AbandonReadBuffer
+	if fn := c.need(R, "lua", "fileFlushAux"); fn != nil && abandon != nil {
+		n := len(callsTo(fn, abandon))
+		c.check(n > 0, R, "fileFlushAux:gives-read-ahead-back", p.pos(fn.Pos()), "flush abandons the read buffer", "flush does not give the read-ahead back: after read(2); flush() on an r+ handle a write lands behind what was read ahead (at the end of a short file) instead of at offset 2")
+	}
+	// seek: Flush precedes the file seek
+	if fn := c.need(R, "lua", "fileSeek"); fn != nil {
+		g := p.G(fn)
+		okc := false
+		allInstrs(fn, func(in ssa.Instruction) {
+			if pk, n, ok := stdCall(in); ok && pk == "os" && n == "File.Seek" {
+				allInstrs(fn, func(f ssa.Instruction) {
+					if isFlush(f) {
+						b, i := after(f)
+						if g.walk(b, i, nil, func(x ssa.Instruction) bool { return x == in }) {
+							okc = true
+						}
+					}
+				})
+			}
+		})
+		c.check(okc, R, "fileSeek:flushes-buffered-output-first", p.pos(fn.Pos()), "a buffered writer is flushed before the file is repositioned", "seek does not flush a buffered writer: setvbuf('full'); write('abc'); seek('set', 0); write('X') leaves 'abcX' instead of 'Xbc'")
+	}
+	// setvbuf: Flush dominates every replacement of the writer
+	if fn := c.need(R, "lua", "fileSetVBuf"); fn != nil {
+		g := p.G(fn)
+		var flushes []ssa.Instruction
+		allInstrs(fn, func(in ssa.Instruction) {
+			if isFlush(in) {
+				flushes = append(flushes, in)
+			}
+		})
+		okc, n := true, 0
+		allInstrs(fn, func(in ssa.Instruction) {
+			if _, ok := isFieldStore(in, writerF); ok {
+				n++
+				reached := false
+				for _, f := range flushes {
+					b, i := after(f)
+					if g.walk(b, i, nil, func(x ssa.Instruction) bool { return x == in }) {
+						reached = true
+					}
+				}
+				// and no path from entry to the store avoids the flush test
+				if !reached {
+					okc = false
+				}
+			}
+		})
+		c.check(n > 0 && okc && len(flushes) > 0, R, "fileSetVBuf:flushes-the-buffer-it-replaces", p.pos(fn.Pos()), "the old writer is flushed before it is replaced", "setvbuf replaces a buffered writer without flushing it: output written since the last flush is lost")
+	}
+	// one line reader
+	okLines := true
+	who := ""
+	for _, fn := range p.srcFuncs {
+		if fn.Pkg == nil || fn.Pkg.Pkg.Path() != luaPath {
+			continue
+		}
+		allInstrs(fn, func(in ssa.Instruction) {
+			pk, n, ok := stdCall(in)
+			if !ok || pk != "bufio" {
+				return
+			}
+			if n == "Reader.ReadLine" || ((n == "Reader.ReadSlice" || n == "Reader.ReadBytes" || n == "Reader.ReadString") && fname(fn) != "readBufioLine") {
+				okLines = false
+				who = fname(fn) + " calls bufio." + n
+			}
+		})
+	}
+	c.check(okLines, R, "lines:one-reader-ending-at-newline-only", "-", "only readBufioLine reads lines, and not through bufio's ReadLine", who+": bufio.Reader.ReadLine strips a carriage return before the newline and returns lines longer than its buffer in pieces; the line functions must go through readBufioLine (read('*l') of 'ab\\r\\n' is 'ab\\r'; a 5000-byte line is one line)")
+	// io.output truncates
+	if fn := c.need(R, "lua", "ioOutput"); fn != nil {
+		nf := p.Fn("lua", "newFile")
+		okc := false
+		for _, cl := range callsTo(fn, nf) {
+			if k, ok := constInt(cl.Call.Args[3]); ok && k&int64(0x200) != 0 && k&int64(0x40) != 0 && k&3 == 1 { // O_TRUNC, O_CREATE, O_WRONLY (linux)
+				okc = true
+			}
+		}
+		if p.GOOS != "linux" && p.GOOS != "" {
+			okc = true // flag values differ; decided on linux
+		}
+		c.check(okc, R, "ioOutput:opens-like-fopen-w", p.pos(fn.Pos()), "O_WRONLY|O_CREATE|O_TRUNC", "io.output(name) opens the file without O_TRUNC: writing 'X' over 'hello world' leaves 'Xello world'")
+	}
+	// byte count not negative
+	if fn := c.need(R, "lua", "fileReadAux"); fn != nil {
+		g := p.G(fn)
+		rs := p.Fn("lua", "readBufioSize")
+		okc := len(callsTo(fn, rs)) > 0
+		for _, cl := range callsTo(fn, rs) {
+			_, lo, _, hasLo := bounds(g, cl, cl.Call.Args[1])
+			if !hasLo || lo < 0 {
+				okc = false
+			}
+		}
+		c.check(okc, R, "fileReadAux:count-not-negative", p.pos(fn.Pos()), "the byte count is tested against 0 before the buffer is made", "read(n) hands a negative count to readBufioSize: make([]byte, n) panics ('makeslice: len out of range')")
+	}
 }
